@@ -62,6 +62,9 @@ func transport.DialURLContext(ctx, url) (conn, err)
   call sync.(*Mutex).Unlock set gLocked := false
   mapaccess requires lock-held: gLocked
   call transport.ContextDialer.DialURLContext requires registered: haskey(dialers.m, url.Scheme) && same($0, dialers.m[url.Scheme]) && $2 == url
+  # the registry lock is not held across the dial: a dialer may itself dial or register, and
+  # other dials and registrations must not wait for this connection attempt
+  call transport.ContextDialer.DialURLContext requires registry-lock-released: !gLocked
   call transport.ContextDialer.DialURLContext set gConn := $r0
   call transport.ContextDialer.DialURLContext set gErr := $r1
   call transport.ContextDialer.DialURLContext set gDialed := true
